@@ -1,6 +1,6 @@
 (* C14 proofs. *)
 From Coq Require Import List ZArith String Ascii Bool Arith Lia Sorted Permutation.
-From Verif Require Import Lib.Sexp Model.C14_finder.
+From Verif Require Import Lib.Sexp Gen.C14_tables Model.C14_finder.
 Import ListNotations.
 Open Scope string_scope.
 Open Scope list_scope.
@@ -32,6 +32,18 @@ Qed.
 
 Lemma path_eqb_refl : forall p, path_eqb p p = true.
 Proof. intro. apply path_eqb_eq. auto. Qed.
+
+(* ------------------------------------------------------------------------------------------------------------- *)
+(* The constants the model has in common with finder.py / loader.py, against the tables regenerated from the source on
+   every run (Gen/C14_tables.v): if one of them changes in the source, this no longer compiles. *)
+Example gen_tables_agree :
+  accepted_exts = gen_accepted_exts /\ accepted_exts = [".py"; ".pyc"; ".pyo"; ".pyd"; ".pyi"; ".so"] /\
+  gen_walk_topdown = true /\ gen_pruned_dir = "__pycache__" /\
+  gen_py_file_suffixes = [".py"; ".pyi"] /\ gen_stub_suffix = ".pyi" /\ gen_dedupe_suffixes = [".py"; ".pyi"] /\
+  gen_provider_sort_by_depth = true /\
+  gen_pth_snapshot = true /\ gen_pth_sorted = true /\ gen_pth_suffix = ".pth" /\
+  gen_sort_key_is_depth = true /\ gen_static_suffixes = [".py"; ".pyi"] /\ gen_dot_check_all_parts = true.
+Proof. repeat split; reflexivity. Qed.
 
 (* ------------------------------------------------------------------------------------------------------------- *)
 (* Part A.  find_package against PathFinder/FileFinder *)
